@@ -203,7 +203,8 @@ Record dialect := {
   d_div : Z -> Z -> Z;
   d_str2num : list Z -> numlit;
   d_strlt : list Z -> list Z -> bool;
-  d_otto_cmp : bool          (* otto's transcription of 11.8.5 / 11.9.3 instead of the clause text *)
+  d_otto_cmp : bool;         (* otto's transcription of 11.8.5 / 11.9.3 instead of the clause text *)
+  d_lio_otto : bool          (* String.prototype.lastIndexOf: a NaN position counts as 0 and -Infinity as +Infinity *)
 }.
 
 Section WithDialect.
@@ -466,6 +467,43 @@ Definition unop (op : Z) (v : value) : M value :=
          end
   else if op =? 11 then a <- to_number_v v ;; ret (num (of_int (d_uint32 d a)))  (* v >>> 0 *)
   else if op =? 12 then s <- to_string_v v ;; ret (num (of_int (Z.of_nat (length s))))  (* String(v).length: 15.5.5.1, code units *)
+  else if (14 <=? op) && (op <=? 18) then
+    (* built-ins that take a position / length through ToInteger (9.4); [ti] is ToInteger as an exact
+       integer, None for +-Infinity *)
+    a <- to_number_v v ;;
+    let t := d_integer d a in
+    let ti := trunc_int t in
+    let pinf := match ti with None => negb (is_neg t) | Some _ => false end in
+    let ninf := match ti with None => is_neg t | Some _ => false end in
+    let abc := [97; 98; 99; 100; 101; 102; 103; 104; 105; 106] in           (* "abcdefghij" *)
+    if op =? 14 then
+      (* "abcdefghij".substr(0, v): B.2.3, min(max(ToInteger(v), 0), 10) characters; an undefined length is +Infinity *)
+      let n := if pinf || match v with VP PUndef => true | _ => false end then 10 else if ninf then 0 else match ti with Some k => Z.min (Z.max k 0) 10 | None => 0 end in
+      ret (VP (PStr (firstn (Z.to_nat n) abc)))
+    else if op =? 15 then
+      (* "abcdefghij".substr(v): from ToInteger(v), counted from the end when negative *)
+      let st := if pinf then 10 else if ninf then 0
+                else match ti with Some k => if 0 <=? k then Z.min k 10 else Z.max (10 + k) 0 | None => 0 end in
+      ret (VP (PStr (skipn (Z.to_nat st) abc)))
+    else if op =? 16 then
+      (* S40.lastIndexOf("a", v): 15.5.4.8, NaN counts as +Infinity; min(max(pos, 0), 40) and the last match at or before it *)
+      (* builtinStringLastIndexOf: number().kind == numberInfinity for either sign searches the whole string,
+         and a NaN position arrives as int64 0 *)
+      let undef := match v with VP PUndef => true | _ => false end in   (* an undefined position is tested for first *)
+      let pos := if is_nan a then (if d_lio_otto d && negb undef then 0 else 40) else if pinf then 40
+                 else if ninf then (if d_lio_otto d then 40 else 0)
+                 else match ti with Some k => Z.min (Z.max k 0) 40 | None => 0 end in
+      ret (num (of_int (Z.min pos 39)))
+    else if op =? 17 then
+      (* [1,2,3].indexOf(3, v): 15.4.4.14 *)
+      let k := if pinf then 3 else if ninf then 0
+               else match ti with Some n => if 0 <=? n then Z.min n 3 else Z.max (3 + n) 0 | None => 0 end in
+      ret (num (of_int (if k <=? 2 then 2 else -1)))
+    else
+      (* [1,2,3].lastIndexOf(1, v): 15.4.4.15 *)
+      let k := if pinf then 2 else if ninf then -1
+               else match ti with Some n => if 0 <=? n then Z.min n 2 else 3 + n | None => -1 end in
+      ret (num (of_int (if 0 <=? k then 0 else -1)))
   else decl.
 
 (* ---------- expressions ---------- *)
@@ -584,14 +622,14 @@ End WithDialect.
 Definition spec_d : dialect := {|
   d_int32 := to_int32; d_uint32 := to_uint32; d_uint16 := to_uint16; d_integer := to_integer; d_div := fdiv;
   d_str2num := string_to_number; d_strlt := units_lt;
-  d_otto_cmp := false |}.
+  d_otto_cmp := false; d_lio_otto := false |}.
 
 Definition model_str2num (s : list Z) : numlit := NLVal (parse_number s).
 
 Definition model_d : dialect := {|
   d_int32 := m_to_int32; d_uint32 := m_to_uint32; d_uint16 := m_to_uint16; d_integer := m_to_integer; d_div := m_divide;
   d_str2num := model_str2num; d_strlt := m_str_lt;
-  d_otto_cmp := true |}.
+  d_otto_cmp := true; d_lio_otto := true |}.
 
 (* observation of one run: status (0 normal, else the thrown tag), result, final variables, log *)
 Definition obs := (Z * oval * list oval * list Z)%type.
